@@ -157,3 +157,322 @@ Proof.
   - rewrite rev_nls. reflexivity.
   - rewrite nls_of_nat, rev_nls, <- app_assoc. reflexivity.
 Qed.
+
+(* ========================================================================================== *)
+(* Part 2 (T2): one content line                                                                *)
+(* ========================================================================================== *)
+Fixpoint cl_peek (f : nat) (acc : list chr) : MS (list chr) :=
+  match f with
+  | O => oof
+  | S f => e <- buf_is_empty str_ops ;;
+           if e then ret acc else
+           c <- peek str_ops ;; if is_breakz c then ret acc else skip_blank str_ops ;;; cl_peek f (c :: acc)
+  end.
+Fixpoint cl_raw (f : nat) (acc : list chr) (n : N) : MS (list chr) :=
+  match f with
+  | O => oof
+  | S f => c <- raw_read str_ops ;;
+           match c with
+           | Some c => cl_raw f (c :: acc) (n + 1)
+           | None => adv_mark n ;;; ret acc
+           end
+  end.
+
+Lemma content_line_eq F acc :
+  scan_block_scalar_content_line str_ops F acc =
+  (acc <- cl_peek F acc ;; e <- buf_is_empty str_ops ;; if e then cl_raw F acc 0 else ret acc).
+Proof. reflexivity. Qed.
+
+Definition nobreak (t : list chr) : Prop := Forall (fun c => is_breakz c = false) t.
+
+Lemma nobreak_nolf t : nobreak t -> Forall (fun c => c <> 10) t.
+Proof. apply Forall_impl. intros c H ->. discriminate. Qed.
+
+(* the buffered-peek loop: with a non-empty look-ahead it reads the whole line *)
+Lemma cl_peek_full : forall (txt rest : list chr) f acc s lk m w,
+  nobreak txt -> is_breakz (hd0 rest) = true -> lk <> O -> (length txt < f)%nat ->
+  cl_peek f acc (mv s (txt ++ rest) lk m w)
+  = Ok (rev txt ++ acc, mv s rest lk (adv (N.of_nat (length txt)) m) w).
+Proof.
+  induction txt as [|c txt IH]; intros rest f acc s lk m w Hnb Hr Hlk Hf.
+  - destruct f as [|f]; [cbn in Hf; lia|]. cbn [cl_peek app length rev].
+    (eapply bind_ok_eq; [apply buf_is_empty_mv|cbv beta iota]). destruct (Nat.eqb_spec lk 0); [contradiction|].
+    (eapply bind_ok_eq; [apply peek_mv|cbv beta iota]). rewrite Hr. rewrite adv_0. reflexivity.
+  - destruct f as [|f]; [cbn in Hf; lia|]. inversion Hnb as [|? ? Hc Hnb']; subst.
+    cbn [cl_peek app].
+    (eapply bind_ok_eq; [apply buf_is_empty_mv|cbv beta iota]). destruct (Nat.eqb_spec lk 0); [contradiction|].
+    (eapply bind_ok_eq; [apply peek_mv|cbv beta iota]). rewrite hd0_cons, Hc.
+    (eapply bind_ok_eq; [apply skip_blank_mv|cbv beta iota]). cbn [tl].
+    rewrite IH; [|auto|auto|auto|cbn [length] in Hf; lia].
+    rewrite adv_adv. cbn [rev length]. rewrite <- app_assoc. cbn [app].
+    do 4 f_equal. lia.
+Qed.
+
+(* with an empty look-ahead it reads nothing *)
+Lemma cl_peek_empty f acc s cs m w : cl_peek (S f) acc (mv s cs O m w) = Ok (acc, mv s cs O m w).
+Proof. reflexivity. Qed.
+
+(* the raw fast path *)
+Lemma cl_raw_full : forall (txt rest : list chr) f acc n s lk m w,
+  nobreak txt -> is_breakz (hd0 rest) = true -> (length txt < f)%nat ->
+  cl_raw f acc n (mv s (txt ++ rest) lk m w)
+  = Ok (rev txt ++ acc, mv s rest lk (adv (n + N.of_nat (length txt)) m) w).
+Proof.
+  induction txt as [|c txt IH]; intros rest f acc n s lk m w Hnb Hr Hf.
+  - destruct f as [|f]; [cbn in Hf; lia|]. cbn [cl_raw app length rev].
+    (eapply bind_ok_eq; [apply raw_read_none; exact Hr|cbv beta iota]).
+    (eapply bind_ok_eq; [apply adv_mark_mv|cbv beta iota]). rewrite N.add_0_r. reflexivity.
+  - destruct f as [|f]; [cbn in Hf; lia|]. inversion Hnb as [|? ? Hc Hnb']; subst.
+    cbn [cl_raw app].
+    (eapply bind_ok_eq; [apply raw_read_some; exact Hc|cbv beta iota]).
+    rewrite IH; [|auto|auto|cbn [length] in Hf; lia].
+    cbn [rev length]. rewrite <- app_assoc. cbn [app]. do 4 f_equal. lia.
+Qed.
+
+Theorem content_line_spec : forall (txt rest : list chr) F acc s lk m w,
+  nobreak txt -> is_breakz (hd0 rest) = true -> (length txt < F)%nat ->
+  scan_block_scalar_content_line str_ops F acc (mv s (txt ++ rest) lk m w)
+  = Ok (rev txt ++ acc, mv s rest lk (mark_after m txt) w).
+Proof.
+  intros txt rest F acc s lk m w Hnb Hr Hf. rewrite content_line_eq.
+  rewrite (mark_after_nolf _ (nobreak_nolf _ Hnb)).
+  destruct lk as [|lk].
+  - (* empty look-ahead: raw fast path *)
+    destruct F as [|F]; [lia|].
+    (eapply bind_ok_eq; [apply cl_peek_empty|cbv beta iota]).
+    (eapply bind_ok_eq; [apply buf_is_empty_mv|cbv beta iota]). cbn [Nat.eqb].
+    rewrite cl_raw_full by auto. rewrite N.add_0_l. reflexivity.
+  - (eapply bind_ok_eq; [apply cl_peek_full; auto|cbv beta iota]).
+    (eapply bind_ok_eq; [apply buf_is_empty_mv|cbv beta iota]). reflexivity.
+Qed.
+
+Ltac hd0c := match goal with |- context [hd0 (?c :: ?r)] => change (hd0 (c :: r)) with c end.
+
+(* ========================================================================================== *)
+(* Part 3 (T3): indentation                                                                     *)
+(* ========================================================================================== *)
+
+(* [skip_spaces_to indent]: on k spaces followed by something else it consumes min k (indent - column) of them *)
+Lemma skip_spaces_to_spec : forall k (rest : list chr) f indent cb s lk m w j,
+  hd0 rest <> 32 -> (k < f)%nat -> (cb = true -> lk <> O) ->
+  j = Nat.min k (N.to_nat (indent - m_col m)) ->
+  skip_spaces_to str_ops f indent cb (mv s (sps k ++ rest) lk m w)
+  = Ok (tt, mv s (sps (k - j) ++ rest) lk (adv (N.of_nat j) m) w).
+Proof.
+  induction k as [|k IH]; intros rest f indent cb s lk m w j Hr Hf Hcb Hj.
+  - destruct f as [|f]; [lia|]. cbn [skip_spaces_to]. cbn [Nat.min] in Hj. subst j. cbn [Nat.sub N.of_nat]. change (sps 0 ++ rest) with rest.
+    rewrite adv_0.
+    assert (He : (if cb then buf_is_empty str_ops else ret false) (mv s rest lk m w) = Ok (false, mv s rest lk m w)).
+    { destruct cb; [|reflexivity]. rewrite buf_is_empty_mv. destruct (Nat.eqb_spec lk 0); [exfalso; apply Hcb; auto|reflexivity]. }
+    mstep ltac:(exact He). mstep ltac:(apply col_mv). cbn [orb].
+    destruct (m_col m <? indent); cbn [negb]; [|reflexivity].
+    mstep ltac:(apply peek_mv). destruct (N.eqb_spec (hd0 rest) 32); [contradiction|reflexivity].
+  - destruct f as [|f]; [lia|]. cbn [skip_spaces_to].
+    assert (He : (if cb then buf_is_empty str_ops else ret false) (mv s (sps (S k) ++ rest) lk m w)
+                 = Ok (false, mv s (sps (S k) ++ rest) lk m w)).
+    { destruct cb; [|reflexivity]. rewrite buf_is_empty_mv. destruct (Nat.eqb_spec lk 0); [exfalso; apply Hcb; auto|reflexivity]. }
+    mstep ltac:(exact He). mstep ltac:(apply col_mv). cbn [orb].
+    destruct (N.ltb_spec (m_col m) indent) as [Hlt|Hge]; cbn [negb].
+    + change (sps (S k) ++ rest) with (32 :: sps k ++ rest).
+      mstep ltac:(apply peek_mv). hd0c. change (32 =? 32) with true. cbv iota.
+      mstep ltac:(apply skip_blank_mv). cbn [tl].
+      rewrite (IH rest f indent cb s lk (adv 1 m) w (Nat.min k (N.to_nat (indent - m_col (adv 1 m))))); auto; [|lia].
+      rewrite adv_adv. cbn [adv m_col] in *.
+      assert (Hj' : j = S (Nat.min k (N.to_nat (indent - (m_col m + 1))))) by lia.
+      rewrite Hj'. cbn [Nat.sub]. do 4 f_equal. lia.
+    + assert (Hj0 : j = O) by lia. subst j. rewrite Hj0. cbn [N.of_nat]. rewrite adv_0, Nat.sub_0_r. reflexivity.
+Qed.
+
+(* the wide-indent loop of skip_block_scalar_indent (indent >= bufmaxlen - 2) *)
+Section Wide.
+Variables (F : nat) (indent : N).
+Fixpoint wide (f : nat) : MS unit :=
+  match f with
+  | O => oof
+  | S f =>
+    look str_ops (bufmaxlen str_ops) ;;; skip_spaces_to str_ops F indent true ;;;
+    k <- col ;; e <- buf_is_empty str_ops ;;
+    c <- (if e then ret 32 else peek str_ops) ;;
+    if (k =? indent) || (negb e && negb (c =? 32)) then ret tt else wide f
+  end.
+End Wide.
+
+(* the "consume the indentation" phase of one round *)
+Definition sbsi_sp (F : nat) (indent : N) : MS unit :=
+  if indent <? N.of_nat (bufmaxlen str_ops - 2) then look str_ops (bufmaxlen str_ops) ;;; skip_spaces_to str_ops F indent false
+  else wide F indent F ;;; look str_ops 2.
+
+Lemma sbsi_eq F fuel indent breaks :
+  skip_block_scalar_indent str_ops F (S fuel) indent breaks =
+  ((if Nat.ltb (bufmaxlen str_ops) 2 then panic 121 else ret tt) ;;;
+   sbsi_sp F indent ;;;
+   b <- next_is str_ops is_break ;;
+   if b then skip_break str_ops ;;; skip_block_scalar_indent str_ops F fuel indent (breaks + 1) else ret breaks).
+Proof. reflexivity. Qed.
+
+Lemma sbsi_sp_spec : forall k (rest : list chr) F indent s lk m w j,
+  hd0 rest <> 32 -> (k < F)%nat -> m_col m <= indent ->
+  j = Nat.min k (N.to_nat (indent - m_col m)) ->
+  exists lk', (lk <= lk')%nat /\ lk' <> O /\
+  sbsi_sp F indent (mv s (sps k ++ rest) lk m w)
+  = Ok (tt, mv s (sps (k - j) ++ rest) lk' (adv (N.of_nat j) m) w).
+Proof.
+  intros k rest F indent s lk m w j Hr Hf Hcol Hj. unfold sbsi_sp.
+  change (bufmaxlen str_ops) with 128%nat.
+  destruct (indent <? N.of_nat (128 - 2)).
+  - exists (Nat.max lk 128). split; [lia|]. split; [lia|].
+    mstep ltac:(apply look_mv).
+    apply skip_spaces_to_spec; auto. discriminate.
+  - exists (Nat.max (Nat.max lk 128) 2). split; [lia|]. split; [lia|].
+    destruct F as [|F]; [lia|].
+    assert (Hw : wide (S F) indent (S F) (mv s (sps k ++ rest) lk m w)
+                 = Ok (tt, mv s (sps (k - j) ++ rest) (Nat.max lk 128) (adv (N.of_nat j) m) w)).
+    { cbn [wide]. change (bufmaxlen str_ops) with 128%nat.
+      mstep ltac:(apply look_mv).
+      mstep ltac:(apply (skip_spaces_to_spec k rest (S F) indent true s (Nat.max lk 128) m w j); auto; lia).
+      mstep ltac:(apply col_mv). mstep ltac:(apply buf_is_empty_mv).
+      destruct (Nat.eqb_spec (Nat.max lk 128) 0) as [E|_]; [lia|]. cbv iota.
+      mstep ltac:(apply peek_mv). cbn [negb andb adv m_col].
+      destruct (Nat.le_gt_cases (N.to_nat (indent - m_col m)) k) as [Hle|Hgt].
+      - assert (E : m_col m + N.of_nat j = indent) by lia. rewrite E, N.eqb_refl. reflexivity.
+      - assert (Ej : j = k) by lia. rewrite Ej, Nat.sub_diag. change (sps 0 ++ rest) with rest.
+        destruct (N.eqb_spec (hd0 rest) 32); [contradiction|]. cbn [negb]. rewrite orb_true_r. reflexivity. }
+    mstep ltac:(exact Hw). apply look_mv.
+Qed.
+
+(* blank lines: k_i spaces and a line feed each *)
+Definition blank_lines (ks : list nat) : list chr := flat_map (fun k => sps k ++ [10]) ks.
+
+Lemma col_nlm m : m_col (nlm m) = 0.
+Proof. reflexivity. Qed.
+
+Lemma mark_after_blank_line k m : mark_after m (sps k ++ [10]) = nlm (adv (N.of_nat k) m).
+Proof. rewrite mark_after_app, mark_after_spaces. reflexivity. Qed.
+
+(* (T3) skip_block_scalar_indent: blank lines of at most [indent] spaces are counted, then at most [indent] spaces
+   of the next line are consumed.  The next line is a content line (more than [indent] spaces, or a character
+   that is neither a space nor a break after at most [indent] spaces) or the less indented line after the scalar. *)
+Theorem skip_block_scalar_indent_spec : forall ks k (rest : list chr) F fuel indent breaks s lk m,
+  m_col m = 0 ->
+  Forall (fun k => N.of_nat k <= indent) ks ->
+  hd0 rest <> 32 ->
+  (indent < N.of_nat k \/ is_break (hd0 rest) = false) ->
+  (length ks < fuel)%nat ->
+  Forall (fun k => (k < F)%nat) (k :: ks) ->
+  exists lk', (lk <= lk')%nat /\ lk' <> O /\
+  skip_block_scalar_indent str_ops F fuel indent breaks (mv s (blank_lines ks ++ sps k ++ rest) lk m true)
+  = Ok (breaks + N.of_nat (length ks),
+        mv s (sps (k - Nat.min k (N.to_nat indent)) ++ rest) lk'
+           (mark_after m (blank_lines ks ++ sps (Nat.min k (N.to_nat indent)))) true).
+Proof.
+  induction ks as [|k0 ks IH]; intros k rest F fuel indent breaks s lk m Hcol Hks Hr Hlast Hfuel HF.
+  - destruct fuel as [|fuel]; [cbn in Hfuel; lia|]. rewrite sbsi_eq.
+    change (Nat.ltb (bufmaxlen str_ops) 2) with false. cbv iota.
+    inversion HF as [|? ? HkF _]; subst.
+    destruct (sbsi_sp_spec k rest F indent s lk m true (Nat.min k (N.to_nat indent)) Hr HkF) as [lk' [Hle [Hne Hsp]]];
+      [rewrite Hcol; lia|rewrite Hcol, N.sub_0_r; reflexivity|].
+    exists lk'. split; [exact Hle|]. split; [exact Hne|].
+    cbn [blank_lines flat_map app length N.of_nat]. rewrite N.add_0_r.
+    mstep ltac:(reflexivity). mstep ltac:(exact Hsp). mstep ltac:(apply next_is_mv).
+    rewrite mark_after_spaces.
+    assert (Hb : is_break (hd0 (sps (k - Nat.min k (N.to_nat indent)) ++ rest)) = false).
+    { rewrite hd0_sps_app. destruct (k - Nat.min k (N.to_nat indent))%nat eqn:E; [|reflexivity].
+      destruct Hlast as [Hlt|Hnb]; [lia|exact Hnb]. }
+    rewrite Hb. reflexivity.
+  - destruct fuel as [|fuel]; [cbn in Hfuel; lia|]. rewrite sbsi_eq.
+    change (Nat.ltb (bufmaxlen str_ops) 2) with false. cbv iota.
+    inversion Hks as [|? ? Hk0 Hks']; subst.
+    inversion HF as [|? ? HkF HF']; subst. inversion HF' as [|? ? Hk0F HksF]; subst.
+    cbn [blank_lines flat_map]. fold (blank_lines ks). rewrite <- !app_assoc. cbn [app].
+    assert (Hr0 : hd0 (10 :: blank_lines ks ++ sps k ++ rest) <> 32) by (intro H; change (10 = 32) in H; discriminate).
+    destruct (sbsi_sp_spec k0 (10 :: blank_lines ks ++ sps k ++ rest) F indent s lk m true k0 Hr0 Hk0F)
+      as [lk1 [Hle1 [Hne1 Hsp]]]; [rewrite Hcol; lia|rewrite Hcol; lia|].
+    rewrite Nat.sub_diag in Hsp. change (sps 0 ++ 10 :: blank_lines ks ++ sps k ++ rest) with (10 :: blank_lines ks ++ sps k ++ rest) in Hsp.
+    destruct (IH k rest F fuel indent (breaks + 1) s lk1 (nlm (adv (N.of_nat k0) m))) as [lk' [Hle [Hne Hrec]]]; auto.
+    { cbn [length] in Hfuel. lia. }
+    exists lk'. split; [lia|]. split; [exact Hne|].
+    mstep ltac:(reflexivity). mstep ltac:(exact Hsp). mstep ltac:(apply next_is_mv). hd0c.
+    change (is_break 10) with true. cbv iota.
+    mstep ltac:(apply skip_break_lf).
+    rewrite Hrec. cbn [length]. rewrite (mark_after_app m (sps k0)), mark_after_spaces.
+    change (mark_after (adv (N.of_nat k0) m) (10 :: blank_lines ks ++ sps (Nat.min k (N.to_nat indent))))
+      with (mark_after (nlm (adv (N.of_nat k0) m)) (blank_lines ks ++ sps (Nat.min k (N.to_nat indent)))).
+    do 2 f_equal. lia.
+Qed.
+
+(* ------------------------------------------------------------------------------------------ *)
+(* skip_first_line_indent (auto-detected indentation)                                          *)
+(* ------------------------------------------------------------------------------------------ *)
+Fixpoint sfl_sp (f : nat) : MS unit :=
+  match f with
+  | O => oof
+  | S f => c <- look_ch str_ops ;; if c =? 32 then skip_blank str_ops ;;; sfl_sp f else ret tt
+  end.
+
+Lemma sfli_eq F fuel maxi breaks :
+  skip_first_line_indent str_ops F (S fuel) maxi breaks =
+  (sfl_sp F ;;; k <- col ;;
+   b <- next_is str_ops is_break ;;
+   if b then look str_ops 2 ;;; skip_break str_ops ;;; skip_first_line_indent str_ops F fuel (N.max maxi k) (breaks + 1)
+   else ret (N.max maxi k, breaks)).
+Proof. reflexivity. Qed.
+
+Lemma sfl_sp_spec : forall k (rest : list chr) f s lk m w,
+  hd0 rest <> 32 -> (k < f)%nat ->
+  sfl_sp f (mv s (sps k ++ rest) lk m w) = Ok (tt, mv s rest (Nat.max lk 1) (adv (N.of_nat k) m) w).
+Proof.
+  induction k as [|k IH]; intros rest f s lk m w Hr Hf; (destruct f as [|f]; [lia|]); cbn [sfl_sp].
+  - change (sps 0 ++ rest) with rest. mstep ltac:(apply look_ch_mv).
+    destruct (N.eqb_spec (hd0 rest) 32); [contradiction|]. cbn [N.of_nat]. rewrite adv_0. reflexivity.
+  - change (sps (S k) ++ rest) with (32 :: sps k ++ rest). mstep ltac:(apply look_ch_mv). hd0c.
+    change (32 =? 32) with true. cbv iota. mstep ltac:(apply skip_blank_mv). cbn [tl].
+    rewrite IH by (auto; lia). rewrite adv_adv.
+    replace (Nat.max (Nat.max lk 1) 1) with (Nat.max lk 1) by lia.
+    do 4 f_equal. lia.
+Qed.
+
+Definition maxl (ks : list nat) (k : nat) : nat := fold_right Nat.max k ks.
+
+Lemma col_after_blank_lines : forall ks j m, m_col m = 0 ->
+  m_col (mark_after m (blank_lines ks ++ sps j)) = N.of_nat j.
+Proof.
+  induction ks as [|k ks IH]; intros j m Hm.
+  - cbn [blank_lines flat_map app]. rewrite mark_after_spaces. cbn [adv m_col]. lia.
+  - cbn [blank_lines flat_map]. fold (blank_lines ks). rewrite <- app_assoc, mark_after_app, mark_after_blank_line.
+    apply IH. reflexivity.
+Qed.
+
+Theorem skip_first_line_indent_spec : forall ks k (rest : list chr) F fuel maxi breaks s lk m,
+  m_col m = 0 ->
+  hd0 rest <> 32 -> is_break (hd0 rest) = false ->
+  (length ks < fuel)%nat -> Forall (fun k => (k < F)%nat) (k :: ks) ->
+  exists lk', (lk <= lk')%nat /\ lk' <> O /\
+  skip_first_line_indent str_ops F fuel maxi breaks (mv s (blank_lines ks ++ sps k ++ rest) lk m true)
+  = Ok ((N.max maxi (N.of_nat (maxl ks k)), breaks + N.of_nat (length ks)),
+        mv s rest lk' (mark_after m (blank_lines ks ++ sps k)) true).
+Proof.
+  induction ks as [|k0 ks IH]; intros k rest F fuel maxi breaks s lk m Hcol Hr Hnb Hfuel HF.
+  - destruct fuel as [|fuel]; [cbn in Hfuel; lia|]. rewrite sfli_eq.
+    inversion HF as [|? ? HkF _]; subst.
+    exists (Nat.max lk 1). split; [lia|]. split; [lia|].
+    cbn [blank_lines flat_map app length N.of_nat maxl fold_right]. rewrite N.add_0_r.
+    mstep ltac:(apply sfl_sp_spec; auto). mstep ltac:(apply col_mv). mstep ltac:(apply next_is_mv).
+    rewrite Hnb. rewrite mark_after_spaces. cbn [adv m_col]. rewrite Hcol, N.add_0_l. reflexivity.
+  - destruct fuel as [|fuel]; [cbn in Hfuel; lia|]. rewrite sfli_eq.
+    inversion HF as [|? ? HkF HF']; subst. inversion HF' as [|? ? Hk0F HksF]; subst.
+    cbn [blank_lines flat_map]. fold (blank_lines ks). rewrite <- !app_assoc.
+    change ([10] ++ blank_lines ks ++ sps k ++ rest) with (10 :: blank_lines ks ++ sps k ++ rest).
+    destruct (IH k rest F fuel (N.max maxi (N.of_nat k0)) (breaks + 1) s (Nat.max (Nat.max lk 1) 2) (nlm (adv (N.of_nat k0) m)))
+      as [lk' [Hle [Hne Hrec]]]; auto.
+    { cbn [length] in Hfuel. lia. }
+    exists lk'. split; [lia|]. split; [exact Hne|].
+    mstep ltac:(apply sfl_sp_spec; [intro H; change (10 = 32) in H; discriminate|exact Hk0F]).
+    mstep ltac:(apply col_mv). mstep ltac:(apply next_is_mv). hd0c. change (is_break 10) with true. cbv iota.
+    mstep ltac:(apply look_mv). mstep ltac:(apply skip_break_lf).
+    cbn [adv m_col]. rewrite Hcol, N.add_0_l. rewrite Hrec.
+    cbn [length maxl fold_right]. fold (maxl ks k).
+    rewrite (mark_after_app m (sps k0)), mark_after_spaces.
+    change (mark_after (adv (N.of_nat k0) m) (([10] ++ blank_lines ks) ++ sps k))
+      with (mark_after (nlm (adv (N.of_nat k0) m)) (blank_lines ks ++ sps k)).
+    do 3 f_equal; lia.
+Qed.
